@@ -1,11 +1,10 @@
-CONSTANTS MaxLines = 4
+CONSTANTS MaxLines = 3
           Recognised <- Both
           CloseByAny = FALSE
           Directives = "prose"
-          CloseAnyLength = FALSE
+          CloseAnyLength = TRUE
           Tracked = TRUE
 INIT CLInit
 NEXT CLNext
-CONSTRAINT Narrow
-INVARIANTS EmitCase
+INVARIANTS OfferedIsProse
 CHECK_DEADLOCK FALSE
